@@ -242,6 +242,20 @@ impl Pipe {
 	}
 }
 
+thread_local! {
+	/// Generator features used by the last `gen` call (reach probes `gen:<feature>`).
+	pub static FEATURES: std::cell::RefCell<Vec<&'static str>> = std::cell::RefCell::new(Vec::new());
+}
+
+pub fn feature(name: &'static str) {
+	FEATURES.with(|f| {
+		let mut f = f.borrow_mut();
+		if !f.contains(&name) {
+			f.push(name)
+		}
+	});
+}
+
 pub fn scenario_for(prop: &str) -> &'static str {
 	match prop {
 		"C01" => "kv",
@@ -301,6 +315,7 @@ fn kinds_for(scenario: &str, r: &mut Rng) -> Vec<ColKind> {
 }
 
 pub fn gen(scenario: &str, tier: Tier, seed: u64) -> (RunCfg, Vec<Op>) {
+	FEATURES.with(|f| f.borrow_mut().clear());
 	let mut r = Rng::new(seed ^ 0x5151_0000);
 	let quick = tier == Tier::Quick;
 	let mut kinds = kinds_for(scenario, &mut r);
@@ -309,6 +324,7 @@ pub fn gen(scenario: &str, tier: Tier, seed: u64) -> (RunCfg, Vec<Op>) {
 		(matches!(scenario, "crash" | "power" | "drop" | "struct" | "ioerr" | "logfuzz") && r.chance(1, 8));
 	if growth && scenario != "reindex" {
 		kinds[0] = ColKind::HashUniform;
+		feature("index_growth_swarm");
 	}
 	let has_uniform = kinds.iter().any(|k| *k == ColKind::HashUniform);
 	let salt_zero = if growth { true } else { has_uniform && r.chance(1, 3) };
@@ -355,6 +371,7 @@ pub fn gen(scenario: &str, tier: Tier, seed: u64) -> (RunCfg, Vec<Op>) {
 		cols[0].keys.retain(|k| !set.contains(k));
 		cols[0].keys.extend(extra);
 		cols[0].bulk = Some((seed, n, mask));
+		feature("big_growth");
 	}
 	let power = scenario == "power";
 	let buggify = faulty || r.chance(1, 2);
@@ -374,6 +391,7 @@ pub fn gen(scenario: &str, tier: Tier, seed: u64) -> (RunCfg, Vec<Op>) {
 	let mut cfg = cfg;
 	if !matches!(scenario, "admin" | "migrate") && r.chance(1, 5) {
 		crate::gen2::edge_keys(&mut Rng::new(seed ^ 0xed9e_0000), &mut cfg);
+		feature("edge_keys");
 	}
 	let ops = gen_ops(&mut r, &cfg, tier, big_max);
 	(cfg, ops)
@@ -532,9 +550,21 @@ fn gen_ops(r: &mut Rng, cfg: &RunCfg, tier: Tier, big_max: u32) -> Vec<Op> {
 	let mut ops = Vec::new();
 	if scenario == "treelock" && r.chance(1, 3) {
 		ops = treelock_pattern(r, cfg);
+		if !ops.is_empty() {
+			feature("treelock_prefix");
+		}
 	}
 	let mut tree_state = crate::gen2::TreeGen::new(cfg);
 	let mut crashes = 0;
+	if matches!(scenario, "kv" | "sizes" | "btree" | "struct" | "rc") && r.chance(1, 8) {
+		ops = slot_reuse_pattern(r, cfg, big_max);
+		if !ops.is_empty() {
+			feature("slot_reuse_prefix");
+		}
+		for op in &ops {
+			pipe.apply(op);
+		}
+	}
 	if let Some((_, nb, _)) = cfg.cols[0].bulk {
 		ops = big_growth_pattern(r, cfg, nb as usize);
 		for op in &ops {
@@ -542,6 +572,7 @@ fn gen_ops(r: &mut Rng, cfg: &RunCfg, tier: Tier, big_max: u32) -> Vec<Op> {
 		}
 	} else if matches!(scenario, "crash" | "power" | "drop" | "ioerr" | "struct") && w.crash + w.ioerr > 0 && cfg.sync_data && r.chance(1, 6) {
 		ops = rotation_pattern(r, cfg, big_max, &mut tree_state, quick);
+		feature("log_rotation_prefix");
 		for op in &ops {
 			pipe.apply(op);
 		}
@@ -693,6 +724,57 @@ impl PipeLike for Pipe {
 	fn tuple(&self) -> PipeViewSrc {
 		(self.queued, self.appending, self.unread, self.dirty)
 	}
+}
+
+/// Scripted prefix (the rest of the run is random as usual): a freed slot of a size tier is
+/// reused by a transaction that does nothing else in that tier, the database is restarted, and
+/// the tier is written again (free-list head persisted?).
+fn slot_reuse_pattern(r: &mut Rng, cfg: &RunCfg, big_max: u32) -> Vec<Op> {
+	let cols: Vec<u8> = (0..cfg.cols.len())
+		.filter(|c| {
+			let k = cfg.cols[*c].kind;
+			!k.is_tree() && !k.is_preimage() && cfg.cols[*c].keys.len() >= 4
+		})
+		.map(|c| c as u8)
+		.collect();
+	if cols.is_empty() {
+		return Vec::new()
+	}
+	let c = *r.pick(&cols);
+	let kind = cfg.cols[c as usize].kind;
+	let nk = cfg.cols[c as usize].keys.len();
+	let mut ks: Vec<usize> = (0..nk).collect();
+	let mut pick = |r: &mut Rng| {
+		let i = r.below(ks.len() as u64) as usize;
+		ks.remove(i)
+	};
+	let (k1, k2, k3, k4) = (pick(r), pick(r), pick(r), pick(r));
+	let len = gen_val(r, kind, std::cmp::min(big_max, 40_000)).len;
+	let val = |r: &mut Rng| ValSpec { len, seed: r.next(), compressible: false };
+	let mut ops = Vec::new();
+	let pipeline = |ops: &mut Vec<Op>, r: &mut Rng| {
+		ops.push(Op::Step(Stage::ProcessCommits));
+		if r.chance(3, 4) {
+			ops.push(Op::Step(Stage::Flush));
+			ops.push(Op::Step(Stage::EnactAll));
+			if r.chance(1, 2) {
+				ops.push(Op::Step(Stage::Clean));
+			}
+		}
+	};
+	ops.push(Op::Commit(vec![(c, TxOp::Set(k1, val(r))), (c, TxOp::Set(k2, val(r)))]));
+	pipeline(&mut ops, r);
+	ops.push(Op::Commit(vec![(c, TxOp::Del(k1))]));
+	pipeline(&mut ops, r);
+	ops.push(Op::Commit(vec![(c, TxOp::Set(k3, val(r)))]));
+	pipeline(&mut ops, r);
+	ops.push(Op::Restart);
+	ops.push(Op::Commit(vec![(c, TxOp::Set(k4, val(r)))]));
+	pipeline(&mut ops, r);
+	if r.chance(1, 2) {
+		ops.push(Op::Restart);
+	}
+	ops
 }
 
 /// Scripted prefix of a run whose column 0 holds thousands of bulk keys: they are all inserted,
